@@ -85,8 +85,14 @@ def scenario(draw):
                     {"at_ms": 0, "op": "mark", "name": "alive-check"},
                     {"at_ms": 0, "op": "await-beats", "pids": [p["id"] for p in payloads if p["role"] == "bystander"], "k": 3, "timeout_ms": 5000},
                     {"at_ms": 0, "op": "mark", "name": "before-shutdown"}, {"at_ms": 0, "op": "shutdown"}])
-    return {"runner": "service", "accept_delay": draw(st.sampled_from([0.005, 0.02])), "switchinterval": draw(switchinterval), "bound_s": BOUND,
-            "linger_ms": 20, "payloads": payloads, "drivers": drivers, "direction": direction, "nexec": nexec}
+    sc = {"runner": "service", "accept_delay": draw(st.sampled_from([0.005, 0.02])), "switchinterval": draw(switchinterval), "bound_s": BOUND,
+          "linger_ms": 20, "payloads": payloads, "drivers": drivers, "direction": direction, "nexec": nexec}
+    if draw(st.integers(0, 4)) == 0 and n <= 8:
+        # harness-owned schedule: per-thread delays at every source line of the runner modules
+        sc["trace_delay"] = {"files": ["runners/asyncio_runner.py", "runners/trio_runner.py", "runners/thread_runner.py", "runners/meta_runner.py",
+                                       "runners/base_runner.py"],
+                             "delays_ms": [draw(st.sampled_from([0, 0, 1])), draw(st.sampled_from([0, 1, 2])), draw(st.sampled_from([0, 1, 3]))]}
+    return sc
 
 
 def judge(sc, obs) -> Result:
@@ -175,6 +181,7 @@ def run_case(sc) -> Result:
             res.cls(f"{p['flavour']}<-{p['caller']}:{p['kind']}")
             if p["kind"] != "none" and not p["caller"].startswith("outside"):
                 nt = True
+    res.cls("schedule-perturbed:" + str(bool(sc.get("trace_delay"))))
     res.cls("direction:" + sc["direction"], "executes:%s" % ("1" if sc["nexec"] <= 1 else "2-5" if sc["nexec"] <= 5 else ">5"))
     res.nontrivial = nt
     if res.violations:
